@@ -178,6 +178,47 @@ def snapshot_tables():
     return snap
 
 
+def module_table_objects():
+    """{id(obj): dotted name} of the mutable module-level tables (and the mutable values nested in them)."""
+    import pyxform.aliases as A
+    import pyxform.constants as C
+    from pyxform.question_type_dictionary import QUESTION_TYPE_DICT
+
+    out = {}
+
+    def reg(name, v, depth=0):
+        if isinstance(v, (dict, list, set)):
+            out[id(v)] = name
+            if depth < 3:
+                for k, x in (v.items() if isinstance(v, dict) else enumerate(v) if isinstance(v, list) else ()):
+                    reg(f"{name}[{k!r}]", x, depth + 1)
+    for mod in (A, C):
+        for k, v in vars(mod).items():
+            if not k.startswith("__"):
+                reg(f"{mod.__name__}.{k}", v)
+    reg("QUESTION_TYPE_DICT", QUESTION_TYPE_DICT)
+    return out
+
+
+def aliased_module_tables(result_obj, tables=None, limit=200000):
+    """Names of module-level tables that are reachable (by identity) from a conversion result: a caller editing its result would edit the library."""
+    tables = tables if tables is not None else module_table_objects()
+    found, seen, stack, n = set(), set(), [result_obj], 0
+    while stack and n < limit:
+        x = stack.pop()
+        n += 1
+        if id(x) in seen:
+            continue
+        seen.add(id(x))
+        if id(x) in tables:
+            found.add(tables[id(x)])
+        if isinstance(x, dict):
+            stack.extend(x.values())
+        elif isinstance(x, (list, tuple, set)):
+            stack.extend(x)
+    return sorted(found)
+
+
 def diff_tables(a, b):
     return [k for k in a if a[k] != b.get(k)] + [k for k in b if k not in a]
 
